@@ -9,6 +9,12 @@ LLSE_NOTE = ('Trusted base: rustc/LLVM up to the emitted IR (the IR is what is c
              'Verdicts hold within the stated structural bounds only; see evidence coverage.bounds / outside_claim.')
 
 CLAIMED = {
+ 'C03': dict(
+    text='Bounded symbolic model checking of the compiled arithmetic path (VM Add/Subtract/Multiply/Divide/Power opcodes, unit products, transitive base-unit factors, prefix factors): for each selected (operator, unit, unit) triple over prefixed standard-library units and all doubles a, b the result has exactly the dimension vector that dimensional analysis of the unit definitions gives, NaN propagates, finite operands never yield NaN, signs and the zero shortcuts follow the operands, nothing panics, and the base-unit value for magnitudes 1 agrees (32 ulp) with exact rational arithmetic on the definition trees computed independently by the plan.',
+    design_ref='DESIGN.md §4 C03', technique='symbolic execution of LLVM IR + SMT (z3 QF_FPBV) with sound FP abstraction; exact-rational reference'),
+ 'C05': dict(
+    text='Bounded symbolic model checking through the whole real pipeline: in a session that defines the units of the case and a set of candidate derived units from their catalog definitions, `a * (E)` is interpreted for compound unit expressions E with a symbolic double a; the displayed (simplified) result must keep the dimension (a zero may be shown as the polymorphic 0), keep NaN / zero / sign, convert back structurally to the unit of the unsimplified computation, and reproduce the magnitude of 1·E; a value given a unit by an explicit `->` must come back in exactly that unit, unsimplified, directly and after being bound to a variable.',
+    design_ref='DESIGN.md §4 C05', technique='symbolic execution of LLVM IR (whole interpreter pipeline) + SMT (z3 QF_FPBV), native replay'),
  'C04': dict(
     text='Bounded symbolic model checking of the compiled conversion path (VM ConvertTo opcode, Quantity::convert_to with its common-factor cancellation, no_simplify / conversion-target marker): for each selected ordered pair of same-dimension units (with prefixes, with a numeric multiple on the target side) and all doubles a: the result is structurally in the requested unit, is marked not-to-be-simplified, carries the requested target as display multiple exactly when its magnitude is not 1, preserves NaN / zero / infinity / sign, is idempotent and the identity on its own unit bit for bit; a second conversion to the plain unit drops the multiple marker; every power of two scales exactly; and the conversion of 1 (also through an intermediate unit, and back) agrees with the factor computed from the unit definitions by exact rational arithmetic in the plan.',
     design_ref='DESIGN.md §4 C04', technique='symbolic execution of LLVM IR + SMT (z3 QF_FPBV) with sound FP abstraction; exact-rational reference for the factor'),
